@@ -646,6 +646,183 @@ def RTUdt (u : Bytes → Bool) (fields : List (String × CqlTy)) : Prop :=
     wfUdt u fields m = true → encUdtSpec fields m' = .ok (cells, l) → cells.length < 2 ^ 64 →
     decUdt u fields cells = .ok (padUdt fields m) ∧ (fields ≠ [] → cells ≠ [])
 
+theorem wf_vector_inv (u : Bytes → Bool) (elt : CqlTy) (dim : Nat) (v : CqlVal)
+    (h : wfVal u (.vector elt dim) v = true) :
+    v = .empty ∨ ∃ vs, v = .vector vs ∧ vs.length = dim ∧ 0 < dim ∧ (∀ x, x ∈ vs → wfVal u elt x = true) ∧
+      (match elt.sizeForVector with
+       | some _ => ∀ x, x ∈ vs → isEmptyVal x = false
+       | none => ∀ l, vs.getLast? = some l → zeroLenBody l = false) := by
+  cases v <;> simp [wfVal] at h ⊢
+  rename_i vs
+  obtain ⟨⟨⟨h1, h2⟩, h3⟩, h4⟩ := h
+  refine ⟨h1, h2, h3, ?_⟩
+  cases hs : elt.sizeForVector with
+  | some sz => rw [hs] at h4; simpa using h4
+  | none =>
+    rw [hs] at h4
+    simp only at h4 ⊢
+    intro l hl
+    rw [hl] at h4
+    simpa using h4
+
+theorem varElemSpec_ok (g : CqlVal → Except SerErr Bytes) (v : CqlVal) (c : Bytes)
+    (h : varElemSpec g v = .ok c) : ∃ eb, g v = .ok eb ∧ c = uvintEnc (BitVec.ofNat 64 eb.length) ++ eb := by
+  unfold varElemSpec at h
+  cases hg : g v with
+  | error e => rw [hg] at h; cases h
+  | ok eb => rw [hg] at h; cases h; exact ⟨eb, rfl, rfl⟩
+
+theorem uvintEnc_ne_nil (v : BitVec 64) (r : Bytes) : uvintEnc v ++ r ≠ [] := by
+  have := (uvintEnc_length v).1
+  cases hx : uvintEnc v with
+  | nil => rw [hx] at this; simp at this
+  | cons a l => simp
+
+theorem decVecVar_rt (u : Bytes → Bool) (elt : CqlTy) (ih : RT u elt) :
+    ∀ (vs : List CqlVal) (cells : Bytes), (∀ x, x ∈ vs → wfVal u elt x = true) →
+      (∀ l, vs.getLast? = some l → zeroLenBody l = false) →
+      concatEnc (varElemSpec (fun v => encSpec elt v false)) vs = .ok cells → cells.length < 2 ^ 64 →
+      decVecVar (fun b => decVal u elt b) vs.length cells = .ok (vs.map (fun x => pad elt x)) ∧
+      (vs ≠ [] → cells ≠ []) := by
+  intro vs
+  induction vs with
+  | nil => intro cells _ _ h _; simp [decVecVar]
+  | cons v vs ihs =>
+    intro cells hw hlast h hlt
+    obtain ⟨c, r, hc, hr, rfl⟩ := concatEnc_cons_ok _ v vs cells h
+    obtain ⟨eb, heb, rfl⟩ := varElemSpec_ok _ v c hc
+    have hwv := hw v List.mem_cons_self
+    have hl : eb.length < 2 ^ 64 ∧ r.length < 2 ^ 64 := by
+      simp only [List.length_append] at hlt; omega
+    obtain ⟨hdec, hz⟩ := ih v eb hwv heb hl.1
+    have hlast' : ∀ l, vs.getLast? = some l → zeroLenBody l = false := by
+      intro l hl'
+      apply hlast l
+      cases vs with
+      | nil => simp at hl'
+      | cons a vs' => simpa [List.getLast?_cons_cons] using hl'
+    obtain ⟨ih1, ih2⟩ := ihs r (fun x hx => hw x (List.mem_cons_of_mem _ hx)) hlast' hr hl.2
+    refine ⟨?_, fun _ => ?_⟩
+    · have hne : (eb ++ r).isEmpty = false := by
+        cases vs with
+        | nil =>
+          have hzl := hlast v (by simp)
+          have : eb ≠ [] := fun e => by rw [hz e] at hzl; cases hzl
+          cases eb with
+          | nil => exact absurd rfl this
+          | cons a l => simp
+        | cons a vs' =>
+          have := ih2 (by simp)
+          cases r with
+          | nil => exact absurd rfl this
+          | cons b l => simp
+      have htn : (BitVec.ofNat 64 eb.length).toNat = eb.length := by
+        simp [BitVec.toNat_ofNat, Nat.mod_eq_of_lt hl.1]
+      have hlen : ¬ ((eb ++ r).length < eb.length) := by simp [List.length_append]
+      simp only [List.length_cons, decVecVar, List.append_assoc, uvint_roundtrip, htn, readN, hne,
+        Bool.false_eq_true, if_false, hlen, List.take_left' rfl, List.drop_left' rfl, hdec, ih1]
+      rfl
+    · rw [List.append_assoc]; exact uvintEnc_ne_nil _ _
+
+/-- Fixed-width element types: every well-formed non-`empty` value has exactly `size` content bytes. -/
+def SZ (u : Bytes → Bool) (t : CqlTy) : Prop :=
+  ∀ (v : CqlVal) (body : Bytes) (sz : Nat), wfVal u t v = true → isEmptyVal v = false →
+    t.sizeForVector = some sz → encSpec t v false = .ok body → body.length = sz ∧ 0 < sz
+
+theorem concatEnc_len {α : Type} (g : α → Except SerErr Bytes) (sz : Nat) :
+    ∀ (vs : List α) (cells : Bytes), (∀ x, x ∈ vs → ∀ b, g x = .ok b → b.length = sz) →
+      concatEnc g vs = .ok cells → cells.length = sz * vs.length := by
+  intro vs
+  induction vs with
+  | nil => intro cells _ h; simp [concatEnc] at h; subst h; simp
+  | cons v vs ih =>
+    intro cells hall h
+    obtain ⟨c, r, hc, hr, rfl⟩ := concatEnc_cons_ok g v vs cells h
+    have h1 := hall v List.mem_cons_self c hc
+    have h2 := ih r (fun x hx => hall x (List.mem_cons_of_mem _ hx)) hr
+    simp only [List.length_append, List.length_cons, h1, h2, Nat.mul_succ]
+    omega
+
+theorem sz_native (u : Bytes → Bool) (n : NativeTy) : SZ u (.native n) := by
+  intro v body sz hw hne hs he
+  rcases wf_native_inv u n v hw with rfl | hn
+  · simp [isEmptyVal] at hne
+  · cases n <;> simp [CqlTy.sizeForVector, NativeTy.sizeForVector] at hs <;> subst hs <;>
+      cases v <;> simp [wfNative] at hn <;>
+      (rw [encSpec] at he
+       simp [viewOf, encScalarSpec, frameChecked, i32Max, beBytes_length] at he
+       subst he
+       simp [beBytes_length])
+
+theorem sz_all (u : Bytes → Bool) : ∀ t : CqlTy, SZ u t
+  | .native n => sz_native u n
+  | .vector elt dim => by
+    intro v body sz hw hne hs he
+    rcases wf_vector_inv u elt dim v hw with rfl | ⟨vs, rfl, hlen, hdim, hall, hextra⟩
+    · simp [isEmptyVal] at hne
+    · simp only [CqlTy.sizeForVector] at hs
+      cases hs' : elt.sizeForVector with
+      | none => rw [hs'] at hs; cases hs
+      | some s' =>
+        rw [hs'] at hs hextra
+        simp only at hs hextra
+        cases hs
+        rw [encSpec] at he
+        have hl : ¬ (vs.length ≠ dim) := by simp [hlen]
+        simp only [viewOf, hl, if_false, hs'] at he
+        cases hc : concatEnc (fun v => encSpec elt v false) vs with
+        | error e => rw [hc] at he; cases he
+        | ok cells =>
+          rw [hc] at he
+          simp only [frame] at he
+          cases he
+          have hpos : 0 < s' := by
+            cases vs with
+            | nil => simp at hlen; omega
+            | cons a l =>
+              obtain ⟨c, r, hc1, _, _⟩ := concatEnc_cons_ok _ a l body hc
+              exact (sz_all u elt a c s' (hall a List.mem_cons_self) (hextra a List.mem_cons_self) hs' hc1).2
+          have := concatEnc_len (fun v => encSpec elt v false) s' vs body
+            (fun y hy b hb => (sz_all u elt y b s' (hall y hy) (hextra y hy) hs' hb).1) hc
+          rw [this, hlen]
+          exact ⟨rfl, Nat.mul_pos hpos hdim⟩
+  | .list _ => by intro v body sz _ _ hs; simp [CqlTy.sizeForVector] at hs
+  | .set _ => by intro v body sz _ _ hs; simp [CqlTy.sizeForVector] at hs
+  | .map _ _ => by intro v body sz _ _ hs; simp [CqlTy.sizeForVector] at hs
+  | .tuple _ => by intro v body sz _ _ hs; simp [CqlTy.sizeForVector] at hs
+  | .udt _ _ _ => by intro v body sz _ _ hs; simp [CqlTy.sizeForVector] at hs
+
+theorem decVecFixed_rt (u : Bytes → Bool) (elt : CqlTy) (sz : Nat) (hs : elt.sizeForVector = some sz)
+    (ih : RT u elt) :
+    ∀ (vs : List CqlVal) (cells : Bytes), (∀ x, x ∈ vs → wfVal u elt x = true) →
+      (∀ x, x ∈ vs → isEmptyVal x = false) →
+      concatEnc (fun v => encSpec elt v false) vs = .ok cells → cells.length < 2 ^ 64 →
+      decVecFixed (fun b => decVal u elt b) sz vs.length cells = .ok (vs.map (fun x => pad elt x)) ∧
+      (vs ≠ [] → cells ≠ []) := by
+  intro vs
+  induction vs with
+  | nil => intro cells _ _ h _; simp [decVecFixed]
+  | cons v vs ihs =>
+    intro cells hw hne h hlt
+    obtain ⟨c, r, hc, hr, rfl⟩ := concatEnc_cons_ok _ v vs cells h
+    have hwv := hw v List.mem_cons_self
+    have hl : c.length < 2 ^ 64 ∧ r.length < 2 ^ 64 := by
+      simp only [List.length_append] at hlt; omega
+    obtain ⟨hlen, hpos⟩ := sz_all u elt v c sz hwv (hne v List.mem_cons_self) hs hc
+    have hdec := (ih v c hwv hc hl.1).1
+    obtain ⟨ih1, _⟩ := ihs r (fun x hx => hw x (List.mem_cons_of_mem _ hx))
+      (fun x hx => hne x (List.mem_cons_of_mem _ hx)) hr hl.2
+    have hcne : c ≠ [] := by intro e; rw [e] at hlen; simp at hlen; omega
+    have hne' : (c ++ r).isEmpty = false := by
+      cases c with
+      | nil => exact absurd rfl hcne
+      | cons a l => simp
+    refine ⟨?_, fun _ => by cases c with | nil => exact absurd rfl hcne | cons a l => simp⟩
+    have hlen' : ¬ ((c ++ r).length < sz) := by simp [List.length_append, hlen]
+    simp only [List.length_cons, decVecFixed, readN, hne', Bool.false_eq_true, if_false, hlen',
+      List.take_left' hlen, List.drop_left' hlen, hdec, ih1]
+    rfl
+
 mutual
 theorem rt (u : Bytes → Bool) : ∀ t : CqlTy, RT u t
   | .native n => by
@@ -761,7 +938,49 @@ theorem rt (u : Bytes → Bool) : ∀ t : CqlTy, RT u t
         have : body.isEmpty = false := by cases body <;> simp at h3 ⊢
         simp only [this, Bool.false_and, pad, h1]
         rfl
-  | .vector elt dim => by sorry
+  | .vector elt dim => by
+    intro v body hw he hlt
+    rcases wf_vector_inv u elt dim v hw with rfl | ⟨vs, rfl, hlen, hdim, hall, hextra⟩
+    · exact rt_empty u _ body hw he
+    · rw [encSpec] at he
+      have hl : ¬ (vs.length ≠ dim) := by simp [hlen]
+      simp only [viewOf, hl, if_false] at he
+      have hvne : vs ≠ [] := by intro e; rw [e] at hlen; simp at hlen; omega
+      cases hs : elt.sizeForVector with
+      | some sz =>
+        rw [hs] at he hextra
+        simp only at he hextra
+        cases hc : concatEnc (fun v => encSpec elt v false) vs with
+        | error e => rw [hc] at he; cases he
+        | ok cells =>
+          rw [hc] at he
+          simp only [frame] at he
+          cases he
+          obtain ⟨h1, h2⟩ := decVecFixed_rt u elt sz hs (rt u elt) vs body hall hextra hc hlt
+          have h3 := h2 hvne
+          refine ⟨?_, fun h => absurd h h3⟩
+          rw [decVal]
+          have : body.isEmpty = false := by cases body <;> simp at h3 ⊢
+          rw [hlen] at h1
+          simp only [this, Bool.false_and, pad, hs, h1]
+          rfl
+      | none =>
+        rw [hs] at he hextra
+        simp only at he hextra
+        cases hc : concatEnc (varElemSpec (fun v => encSpec elt v false)) vs with
+        | error e => rw [hc] at he; cases he
+        | ok cells =>
+          rw [hc] at he
+          simp only [frame] at he
+          cases he
+          obtain ⟨h1, h2⟩ := decVecVar_rt u elt (rt u elt) vs body hall hextra hc hlt
+          have h3 := h2 hvne
+          refine ⟨?_, fun h => absurd h h3⟩
+          rw [decVal]
+          have : body.isEmpty = false := by cases body <;> simp at h3 ⊢
+          rw [hlen] at h1
+          simp only [this, Bool.false_and, pad, hs, h1]
+          rfl
 theorem rtTuple (u : Bytes → Bool) : ∀ ts : List CqlTy, RTTuple u ts
   | [] => by
     intro fs cells _ hlen he _
